@@ -25,7 +25,7 @@ RULE = (
     "pair of distinct objects; distinct = distinct (family fingerprint, i, j)"
 )
 ASSUMPTIONS = ["origins are produced by the library's constructors / merge_origins", "content equality itself is C01's subject: frozenset order and separator re-splits are not generated here"]
-MUST_SEE = ["trees_sharing_child_objects", "rejected_replace_then_hash", "permissive_non_node_comparisons", "one_origin_diff_depth_ge2", "equal_pairs_distinct_objects", "triples", "confusable_origin_pairs", "serial_families", "non_node_comparisons", "hash_rechecks", "shared_subtrees", "shared_vs_unshared_families"]
+MUST_SEE = ["deep_3000_comparisons", "trees_sharing_child_objects", "rejected_replace_then_hash", "permissive_non_node_comparisons", "one_origin_diff_depth_ge2", "equal_pairs_distinct_objects", "triples", "confusable_origin_pairs", "serial_families", "non_node_comparisons", "hash_rechecks", "shared_subtrees", "shared_vs_unshared_families"]
 CONFIG = {
     "quick": {"shards": 16, "families": 500, "watchdog_s": 300},
     "thorough": {"shards": 32, "families": 500, "watchdog_s": 3000},
@@ -244,6 +244,32 @@ def run_shard(ctx):
         if (ta == tc) is not True:
             ctx.violation("eq-vs-reference", "two equal trees sharing child objects compare unequal", {"shape": k % len(shapes), "got": False, "exp": True})
         for x_ in (ta, tb, tc):
+            x_.detach()
+    # very deep trees, compared under the interpreter's default recursion limit (the harness' own limit is high)
+    if ctx.only_case is None and ctx.shard % 4 == 0:
+        def chain(depth, last_origin):
+            n_ = U.cls[f"{P}Leaf"](v=1, origin=last_origin)
+            for _ in range(depth):
+                n_ = U.cls[f"{P}Un"](child=n_)
+            return n_
+
+        da, db, dc = chain(3000, o1), chain(3000, o1), chain(3000, o2)
+        old_limit = sys.getrecursionlimit()
+        sys.setrecursionlimit(1000)
+        try:
+            ctx.evaluations += 2
+            ctx.count("deep_3000_comparisons")
+            try:
+                r1, r2, r3 = da == db, da == dc, da != dc
+            except RecursionError:
+                r1 = r2 = r3 = "RecursionError"
+            finally:
+                sys.setrecursionlimit(old_limit)
+            if (r1, r2, r3) != (True, False, True):
+                ctx.violation("eq-raises" if r1 == "RecursionError" else "eq-vs-reference", "comparing trees 3000 levels deep (equal / differing in the origin of the deepest node) did not answer (True, False, True)", {"got": (r1, r2, r3), "depth": 3000})
+        finally:
+            sys.setrecursionlimit(old_limit)
+        for x_ in (da, db, dc):
             x_.detach()
     # a replace() that is rejected after the rejected copy had been registered (the class validates after the base):
     # the receiver's hash, and so its membership in sets and dicts, stays what it was
